@@ -34,9 +34,9 @@ ASSUMPTIONS = ["a deletion is 'reported' when a WARNING record names the atom an
                "alternate atom names are the ones listed in AA.xml / NA.xml / PATCHES.xml",
                "'fully parameterised' = every atom of the residue received parameters"]
 MIN = {"quick": {"residues_checked": 1500, "atom_set_checks": 900, "input_heavy_atoms_traced": 12000,
-                 "remove_atom_events": 1500, "altloc_inputs": 15, "ligand_runs": 8, "model_atoms_traced": 10000},
+                 "remove_atom_events": 1500, "altloc_inputs": 15, "ligand_runs": 8, "model_atoms_traced": 10000, "big_outputs_over_9999_atoms": 3},
        "thorough": {"residues_checked": 60000, "atom_set_checks": 35000, "input_heavy_atoms_traced": 500000,
-                    "remove_atom_events": 60000, "altloc_inputs": 1000, "ligand_runs": 600, "model_atoms_traced": 1000000}}
+                    "remove_atom_events": 60000, "altloc_inputs": 1000, "ligand_runs": 600, "model_atoms_traced": 1000000, "big_outputs_over_9999_atoms": 45}}
 BRANCHES_REQUIRED = {"quick": 25, "thorough": 30}
 
 EV = {"removed": [], "installed": False, "branches": Counter()}
@@ -156,6 +156,9 @@ def cases(tier, seed):
     # --ligand runs: peptide + MOL2 ligand + waters, some of them with atoms no force field knows (four-site water
     # EPW, a stray hetero atom): whatever is not written must be reported
     nl = 18 if tier == "quick" else 1500
+    for i in range(4 if tier == "quick" else 60):
+        out.append({"kind": "big", "w": "big", "seed": seed * 8101 + i, "enc": ("cif", "pdb", "cif")[i % 3],
+                    "ff": ["AMBER", "PARSE", "CHARMM", "SWANSON"][(seed + i) % 4]})
     out += [{"kind": "ligand", "seed": seed * 61001 + i, "ff": ["AMBER", "PARSE", "CHARMM"][i % 3], "w": "ligand",
              "opts": []} for i in range(nl)]
     nt = 36 if tier == "quick" else 5000
@@ -364,11 +367,73 @@ def run_ligand(spec, res):
     res.sample = {"kind": "ligand", "ff": spec["ff"], "lines": len(pq), "reported_unassigned": len(missed)}
 
 
+def run_big(spec, res):
+    """A structure whose *output* has more than 9999 atoms (a peptide in a box of waters), read from PDB or mmCIF:
+    serial numbers fill their field (HETATM10000), and every atom of the final model must still be written."""
+    import numpy as np
+    from ..gen import cifwriter
+    from ..gen import structures as S
+    rng = random.Random(spec["seed"])
+    pep = S.peptide([rng.choice(["ALA", "SER", "LYS", "GLY", "ASP", "THR"]) for _ in range(rng.randint(2, 5))], rng)
+    nw = rng.randint(3330, 3420)
+    side = int(round(nw ** (1 / 3))) + 1
+    wat = []
+    for k in range(nw):
+        i, j, l = k % side, (k // side) % side, k // (side * side)
+        wat.append({"resn": "HOH", "kind": "wat", "atoms": [("O", np.array([40.0 + 7.3 * i, 40.0 + 7.3 * j, 40.0 + 7.3 * l]))]})
+    items, truth = S.assemble([{"id": "A", "start": 1, "residues": pep},
+                               {"id": rng.choice(["W", "A"]), "start": 201, "residues": wat}])
+    enc = spec["enc"]
+    if enc == "cif":
+        text, suffix = cifwriter.write(items, layout=rng.choice(["wwpdb", "short"]), rng=rng), ".cif"
+    else:
+        text, suffix = pdbfmt.to_text(items), ".pdb"
+    opts = [f"--ff={spec['ff']}", "--noopt", "--nodebump"] + rng.choice([[], [], ["--whitespace"], ["--keep-chain"]])
+    r = pipeline.run(text, opts, suffix=suffix, workname="c03")
+    res.count("runs")
+    if not r.ok:
+        res.count("runs_failed")
+        res.note(f"big {enc} {opts} failed: {type(r.exc).__name__} {str(r.exc)[:60]}")
+        return
+    res.count("runs_ok")
+    wit0 = {"ff": spec["ff"], "opts": opts, "seed": spec["seed"], "w": f"big-{enc}", "waters": nw}
+    missed = {id(a) for a in (r.missed or [])}
+    written = match.written_atoms(r.bio, r.missed)
+    pq = pipeline.parse_pqr(r.pqr_text, whitespace="--whitespace" in opts)
+    if len(written) >= 10000:
+        res.count("big_outputs_over_9999_atoms")
+        res.nt("big", enc, spec["ff"], tuple(opts[3:]))
+    res.cell("big", enc, tuple(opts[3:]))
+    if len(pq) != len(written):
+        res.violate("model/not-written-and-not-reported", f"{len(r.bio.atoms)} atoms in the final model, "
+                    f"{len(r.missed or [])} reported unassigned, but {len(pq)} PQR atom lines", **wit0)
+    else:
+        for a, ln in zip(written, pq):
+            if ln["name"] != a.name or ln["resi"] != a.res_seq:
+                res.violate("model/written-line-mismatch", f"line {ln['line']!r} does not correspond to model atom "
+                            f"{a.name} {a.res_seq}", **wit0)
+                break
+    wid = {id(a) for a in written}
+    lost = [(str(rr), a.name) for rr in r.bio.residues for a in rr.atoms if id(a) not in wid and id(a) not in missed]
+    res.count("model_atoms_traced", sum(len(rr.atoms) for rr in r.bio.residues))
+    if lost:
+        res.violate("model/residue-atoms-neither-written-nor-reported", f"{len(lost)} atoms of the final model are "
+                    f"neither written nor reported unassigned, e.g. {lost[:4]}", **wit0)
+    # every input water must be in the output with its hydrogens
+    nwat_out = sum(1 for ln in pq if ln["resn"] in ("HOH", "WAT") and ln["name"] == "O")
+    if nwat_out != nw:
+        res.violate("model/input-water-vanished", f"{nw} waters in the input, {nwat_out} water oxygens written", **wit0)
+    res.sample = {"kind": "big", "enc": enc, "opts": opts, "atoms_written": len(pq)}
+
+
 def run_case(spec):
     install()
     res = Res()
     if spec["kind"] == "ligand":
         run_ligand(spec, res)
+        return res
+    if spec["kind"] == "big":
+        run_big(spec, res)
         return res
     m = workload.materialise(spec)
     rng = random.Random(spec["seed"] + 11)
